@@ -79,3 +79,48 @@ PROPS['C08'] = dict(
     tolerances='all identities: 64*n*eps*(||H||_F+|s|) resp. 64*n*eps*||Y||_F; R below-diagonal and UpperHessenbergQR/TridiagQR band zeros exact; first column: sin(angle) <= 64 n eps (||H||^2+|s|||H||+|t|)/||Me1||, asserted when ||Me1|| >= sqrt(eps)*scale',
     assumptions=KERNEL_ASSUME,
 )
+
+PROPS['C09'] = dict(
+    level='exploration',
+    technique='rapidcheck generation of tridiagonal / Hessenberg matrices from ten structural classes (incl. defective, companion, zero, graded) against long double residual and structure oracles',
+    level_text='Random search with shrinking over (class, scalar type, n <= 64, ten entry patterns incl. exact-zero subdiagonals, Jordan-like and companion matrices, '
+               'equal-diagonal 2x2 blocks, the zero matrix, scales 1e-100..1e100) checking T Z = Z diag(d) and Z orthogonal, U T U\' = H with U orthogonal and T '
+               'quasi-triangular, unit-norm Hessenberg eigenpairs with small residual, exact-zero imaginary parts / adjacent exact conjugate pairs (positive first), '
+               'pairing of the eigenvalue list with the Schur diagonal blocks, trace, and that an iteration-limit failure is an exception, never numbers.',
+    level_note='Reference arithmetic in long double; Eigen SelfAdjointEigenSolver<long double> for the symmetric eigenvalue cross-check. The iteration-limit exception is '
+               'accepted and counted, as the property allows.',
+    units=[dict(name='c09', src='c09_eigen.cpp')],
+    runs=dict(
+        quick=[dict(unit='c09', cases=4000, workers=4)],
+        thorough=[dict(unit='c09', cases=60000, workers='all')],
+    ),
+    min=dict(quick=dict(cases=12000, nontrivial=5000, classes={'UpperHessenbergEigen/double': 300, 'TridiagEigen/float': 300, 'complex_pairs': 500, 'near_multiple_eigenvalue': 300, 'UpperHessenbergEigen/jordan_like': 100}),
+             thorough=dict(cases=600000, nontrivial=300000)),
+    rule='case = (class in {TridiagEigen, UpperHessenbergSchur, UpperHessenbergEigen}, scalar in {float,double,long double}, pattern (10 classes), n, entries / content seed, '
+         'scale, constructor path). Non-trivial = n >= 3 and the matrix is not diagonal; distinct = 64-bit hash of the draw log.',
+    tolerances='64*n*eps*||.||_F for every identity; unit norm 64 n eps; pairing with Schur blocks: delta=64 n eps ||H||, allowed max(delta, min(sqrt(delta*||block||), delta*||block||/sqrt|q|)) for a 2x2 block with discriminant 4q (its eigenvalues are that ill-conditioned)',
+    assumptions=KERNEL_ASSUME,
+)
+
+PROPS['C10'] = dict(
+    level='exploration',
+    technique='rapidcheck generation of symmetric / Hermitian matrices (small-integer, zero-diagonal, graded, block, SPD, indefinite) x shifts x storage forms; backward-error, exact-determinant (Bareiss) and metamorphic oracles',
+    level_text='Random search with shrinking over scalar type (real and complex, three precisions), n <= 40, seven matrix classes (element-wise drawn small integers where '
+               'singularity is decided exactly by a Bareiss determinant; zero diagonals that force 2x2 pivots; graded; block diagonal), four shift kinds, five argument forms '
+               '(col/row major, block, Map, expression), both triangles, recompute-after-failure histories. Asserts: success whenever sigma_min >= 1e-6 ||M||; backward error <= 64 n eps '
+               '(||M|| ||x|| + ||b||) for every Successful solve; lower/upper status equal and solutions within 64 n eps cond; unused triangle never read (bit-identical); '
+               'DenseSymShiftSolve::set_shift throws invalid_argument exactly when the factorization reports non-success.',
+    level_note='sigma_min from Eigen SelfAdjointEigenSolver<complex long double>; exact singularity only for real integer matrices with integer shift (128-bit Bareiss).',
+    units=[dict(name='c10', src='c10_bkldlt.cpp')],
+    runs=dict(
+        quick=[dict(unit='c10', cases=5000, workers=4)],
+        thorough=[dict(unit='c10', cases=80000, workers='all', set=dict(nmax=80))],
+    ),
+    min=dict(quick=dict(cases=15000, nontrivial=8000, classes={'class/small_integer': 1000, 'class/zero_diagonal': 500, 'DenseSymShiftSolve wrapper': 1000, 'n=1': 50, 'reported_singular': 100, 'recompute_after_failure': 1000}),
+             thorough=dict(cases=1000000, nontrivial=500000)),
+    rule='case = (scalar type, matrix class, n, entries or content seed, scale, shift kind, argument form, first triangle, constructor path, optional failing factorization first, rhs seed) '
+         'or a DenseSymShiftSolve wrapper case. Each case factorizes three times (given triangle, other triangle, given triangle with garbage in the unused one). '
+         'Non-trivial = n >= 2; distinct = 64-bit hash of the draw log.',
+    tolerances='backward error 64 n eps (||A-sI||_F ||x|| + ||b||); lower/upper agreement 64 n eps cond_2 ||x||; "nonsingular" = sigma_min >= 1e-6 ||A-sI||_F',
+    assumptions=KERNEL_ASSUME,
+)
